@@ -73,7 +73,11 @@ func (w *Writer) Case(class string, nontrivial bool, req string, reply string) {
 
 func (w *Writer) Fail(format string, args ...any) {
 	if len(w.Monitor) < 200 {
-		w.Monitor = append(w.Monitor, fmt.Sprintf(format, args...)+" [replay: "+w.lastReq+"]")
+		msg := fmt.Sprintf(format, args...)
+		if !strings.Contains(msg, "[replay: ") {
+			msg += " [replay: " + w.lastReq + "]"
+		}
+		w.Monitor = append(w.Monitor, msg)
 	}
 	w.Stats["monitor_fail"]++
 }
